@@ -308,3 +308,8 @@ def run(repo: Repo, rep: Report, tier: str) -> None:
                 dflt = sv.args[1] if isinstance(sv, ast.Call) and len(sv.args) == 2 else None
                 rep.check(dflt is not None and norm(dflt) == "1", "C16-R5", f"{m.short}: missing step defaults to 1", norm(sv), m.loc(c))
     rep.floor("C16-R5", "ForStmt constructor sites in the transformer", n_ctor, 2)
+
+    # ---------------- R7 ---------------------------------------------------------------
+    rep.rule("C16-R7", "inside a function inlined from a loop body a parameter named like the iterator wins: name resolvers consult the parameter environment before outer names (shared with C06-R5/C15-R5)")
+    from .shared import identifier_resolvers as _idres
+    _idres(repo, rep, "C16-R7")
